@@ -509,6 +509,124 @@ def likelihood_stage(ctx, binary, stats, only=None):
     return len(cases), bad, len(logs)
 
 
+def parse_pipe(tokens):
+    out, p = [], 0
+    while p < len(tokens) and tokens[p] == "P":
+        b = {}
+        (b["cn"], b["clin"], b["ccirc"], b["ccols"], b["srows"], b["wrows"], b["trig"]) = [int(x) for x in tokens[p + 1:p + 8]]
+        b["neff"] = unhex(tokens[p + 8]); b["u1ok"] = int(tokens[p + 9]); b["u1"] = tokens[p + 10]
+        npar = int(tokens[p + 11]); p += 12
+        b["parents"] = [int(x) for x in tokens[p:p + npar]]; p += npar
+        b["w"] = [unhex(x) for x in tokens[p:p + b["wrows"]]]; p += b["wrows"]
+        b["x"] = [unhex(x) for x in tokens[p:p + b["ccols"]]]; p += b["ccols"]
+        for key in ("cw", "lw", "pw"):
+            k = int(tokens[p]); p += 1
+            b[key] = [unhex(x) for x in tokens[p:p + k]]; p += k
+        k = int(tokens[p]); p += 1
+        b["px"] = [unhex(x) for x in tokens[p:p + k]]; p += k
+        b["py"] = [unhex(x) for x in tokens[p:p + k]]; p += k
+        b["vm"] = int(tokens[p]); b["y"] = (unhex(tokens[p + 1]), unhex(tokens[p + 2])); p += 3
+        b["vl"], b["lik_same"] = int(tokens[p]), int(tokens[p + 1]); k = int(tokens[p + 2]); p += 3
+        b["lik"] = [unhex(x) for x in tokens[p:p + k]]; p += k
+        b["copies"], b["log_calls"] = int(tokens[p]), int(tokens[p + 1]); p += 2
+        out.append(b)
+    return out
+
+
+def pipeline_stage(ctx, binary, stats, only=None):
+    """the shipped pipeline of test_SIS end to end (InitSurveillanceAreaGrid, DrawParticles + WhiteNoiseAcceleration,
+    BootstrapCorrection + SimulatedLinearSensor + GaussianLikelihood, Resampling) against the predicates and the model:
+    the prediction outcome and the reported likelihood of every step are handed to `sisStep` as event data"""
+    r = ctx.gen("pipe").r
+    cases = []
+    if only:
+        t = only.split()
+        cases.append(tuple(int(x) for x in t[1:7]) + tuple(unhex(x) for x in t[7:10]))
+    for _ in range(0 if only else ctx.n(14, 150)):
+        nx, ny = r.randint(2, 6), r.randint(2, 6)
+        cases.append((r.randrange(1, 2 ** 32), r.randrange(1, 2 ** 32), r.randrange(1, 2 ** 32), r.randint(2, 8), nx, ny,
+                      r.choice([1000.0, 100.0, 50.0]), r.choice([10.0, 30.0, 100.0]), r.choice([10.0, 1.0, 0.1])))
+    uouts, _ = vlib.run_harness(binary, ["u1 %d %d %d" % (c[0], c[4] * c[5], c[3]) for c in cases])
+    hl = ["pipe %d %d %d %d %d %d %s %s %s" % (c[0], c[1], c[2], c[3], c[4], c[5], hexd(c[6]), hexd(c[7]), hexd(c[8])) for c in cases]
+    hout, logs = vlib.run_harness(binary, hl)
+    parsed, dl = [], []
+    for c, line, h, uo in zip(cases, hl, hout, uouts):
+        n, K = c[4] * c[5], c[3]
+        try:
+            ht = h.split()
+            blocks = parse_pipe(ht[3:]) if ht[0] == "ok" else None
+            if blocks is None or len(blocks) != K or int(ht[2]) != K:
+                raise ValueError("blocks")
+        except (IndexError, ValueError):
+            parsed.append(None); dl.append("skip"); continue
+        parsed.append(blocks)
+        us = uo.split()[1:]
+        body = "sisp %d 4 0 %d %d %s %s %s" % (n, K, len(us), " ".join(us), " ".join(hexd(x) for x in blocks[0]["pw"]), " ".join(hexd(x) for x in blocks[0]["px"]))
+        for b in blocks:
+            body += " 1 %d %s %d %s" % (b["vl"], " ".join(hexd(x) for x in b["px"]), len(b["lik"]), " ".join(hexd(x) for x in b["lik"]))
+        dl.append(body)
+    dout = vlib.run_driver(dl)
+    bad = []
+    for c, line, h, blocks, d in zip(cases, hl, hout, parsed, dout):
+        n, K, sigma = c[4] * c[5], c[3], c[7]
+        if blocks is None:
+            bad.append(("prop", "impl-crash", "the shipped SIS pipeline failed or did not run its %d steps: %s" % (K, h[:120]), line, h)); continue
+        mblocks = parse_blocks(d.split()[1:], False)[0] if d.startswith("ok") else None
+        if mblocks is None or len(mblocks) != K:
+            bad.append(("corr", "model-undefined", "model not defined on the pipeline history: %s" % d[:60], line, h)); mblocks = None
+        thr, live = n / 3.0, mblocks is not None
+        if abs(lse(blocks[0]["pw"])) > 1e-10:
+            bad.append(("corr", "shipped-init-not-normalised", "InitSurveillanceAreaGrid: initial weights are not normalised (hypothesis InitOK)", line, h))
+        prev_w = blocks[0]["pw"]
+        for k, b in enumerate(blocks):
+            where = "pipeline step %d of %d (N=%d)" % (k, K, n)
+            fail = None
+            trig = bool(b["trig"])
+            if not (b["cn"] == n and b["ccols"] == n and b["wrows"] == n): fail = ("particle-count", "corrected set has components=%d, columns=%d, weights=%d" % (b["cn"], b["ccols"], b["wrows"]))
+            elif not (b["clin"] == 4 and b["ccirc"] == 0 and b["srows"] == 4): fail = ("layout-lost", "layout (%d, %d), %d rows" % (b["clin"], b["ccirc"], b["srows"]))
+            elif not all(math.isfinite(x) for x in b["w"]): fail = ("weight-not-finite", "a log-weight is not finite")
+            elif abs(lse(b["w"])) > 1e-10: fail = ("not-normalised", "log-sum-exp of the corrected log-weights is %.3g" % lse(b["w"]))
+            elif len(b["cw"]) != n or trig != (b["neff"] < thr): fail = ("resample-trigger", "neff = %.17g, N/3 = %.17g, resampling %s" % (b["neff"], thr, "ran" if trig else "did not run"))
+            elif trig and (not all(is_minus_log_n(hexd(x), n) for x in b["w"]) or not b["copies"] or not b["u1ok"]): fail = ("not-uniform-after-resampling", "after resampling: weights not all -log N / particles not copies at the parents")
+            elif not trig and not bits_equal(b["w"], b["cw"]): fail = ("neff-not-of-corrected-weights", "resampling did not run, yet neff was evaluated on other weights")
+            elif not b["lik_same"]: fail = ("likelihood-query-not-idempotent", "two getLikelihood() calls after the step disagree")
+            elif not (b["vm"] and b["vl"] and len(b["lik"]) == n): fail = ("reweight-wrong", "measurement / likelihood not valid although the acquisition succeeded")
+            else:
+                want_l = [math.exp(-((b["y"][0] - x) ** 2 + (b["y"][1] - y) ** 2) / (2 * sigma * sigma)) / (2 * math.pi * sigma * sigma) for x, y in zip(b["px"], b["py"])]
+                if any(abs(a - w) > (1e-8 if w > 1e-290 else 1e-3) * w + 1e-320 for a, w in zip(b["lik"], want_l)):
+                    fail = ("likelihood-value", "reported likelihood is not N(y - Hx; 0, R) of the predicted particles")
+                else:
+                    raw = [w + math.log(li + TINY) for w, li in zip(prev_w, b["lik"])]
+                    lr = lse(raw)
+                    if not all(close(a, x - lr) for a, x in zip(b["cw"], raw)) or not bits_equal(b["pw"], prev_w):
+                        fail = ("reweight-wrong", "corrected log-weights are not w_prev + log(l + tiny) - LSE for the likelihood the correction reports")
+            if fail:
+                bad.append(("prop", fail[0], "%s: %s" % (where, fail[1]), line, h)); break
+            if b["log_calls"] != 1 or not bits_equal(b["lw"], b["cw"]):
+                bad.append(("corr", "log-call", "%s: log() did not see the corrected weights once" % where, line, h))
+            if live:
+                mb = mblocks[k]
+                if (mb["cn"], mb["clin"], mb["ccirc"], mb["ccols"], mb["wrows"]) != (b["cn"], b["clin"], b["ccirc"], b["ccols"], b["wrows"]) or not close(mb["neff"], b["neff"]):
+                    bad.append(("corr", "pipeline-model", "%s: shape / neff differ from the model" % where, line, h)); live = False
+                elif mb["trig"] != b["trig"]:
+                    if not (abs(b["neff"] - thr) <= 1e-9 * thr or abs(mb["neff"] - thr) <= 1e-9 * thr):
+                        bad.append(("corr", "pipeline-model", "%s: trigger differs from the model" % where, line, h))
+                    live = False
+                elif trig and mb["parents"] != b["parents"]:
+                    e = [Fraction(sexp(x)) for x in b["cw"]]
+                    tol = Fraction(n * EPS + 2.0 ** -40)
+                    if not (len(mb["parents"]) == n and all(within_slack(n, frac_of_hex(b["u1"]), cum_sums(e), j, mb["parents"][j], b["parents"][j], b["parents"][j], tol) for j in range(n))):
+                        bad.append(("corr", "pipeline-model", "%s: parents differ from the model beyond rounding" % where, line, h))
+                    live = False
+                elif not all(close(a, x) for a, x in zip(mb["w"], b["w"])) or not bits_equal(mb["x"], b["x"]):
+                    bad.append(("corr", "pipeline-model", "%s: weights / particles differ from the model" % where, line, h)); live = False
+                else:
+                    stats["pipeline_steps_identical_to_model"] = stats.get("pipeline_steps_identical_to_model", 0) + 1
+            stats["pipeline_steps_resampled" if trig else "pipeline_steps_kept"] = stats.get("pipeline_steps_resampled" if trig else "pipeline_steps_kept", 0) + 1
+            prev_w = b["w"]
+    return len(cases), bad, len(logs)
+
+
 def run(ctx):
     ctx.proof_stage()
     if not ctx.quick():
@@ -527,8 +645,9 @@ def run(ctx):
         import json
         replay_line = json.load(open(ctx.replay)).get("replay", {}).get("input_line")
     glik_replay = replay_line if (replay_line and replay_line.startswith("glik")) else None
+    pipe_replay = replay_line if (replay_line and replay_line.startswith("pipe")) else None
     if replay_line:
-        if not glik_replay:
+        if not glik_replay and not pipe_replay:
             cases.append(parse_line(replay_line))
         n_hist = 0
     elif corpus.exists():
@@ -566,7 +685,8 @@ def run(ctx):
         for kind, key2, what in probs:
             (corr_bad if kind == "corr" else prop_bad).append((key2, what, hl, h))
     n_lik, lik_bad, lik_crashes = (0, [], 0) if (replay_line and not glik_replay) else likelihood_stage(ctx, binary, stats, glik_replay)
-    for kind, key2, what, line, h in lik_bad:
+    n_pipe, pipe_bad, pipe_crashes = (0, [], 0) if (replay_line and not pipe_replay) else pipeline_stage(ctx, binary, stats, pipe_replay)
+    for kind, key2, what, line, h in lik_bad + pipe_bad:
         (corr_bad if kind == "corr" else prop_bad).append((key2, what, line, h))
     prop_bad.sort(key=lambda v: len(v[2]))          # report the smallest failing input of each kind
     corr_bad.sort(key=lambda v: len(v[2]))
@@ -583,18 +703,18 @@ def run(ctx):
     nontrivial = set(hl for (c, m), hl in zip(cases, hlines) if m["n"] > 1 and m["K"] > 1)
     resampled_circ = sum(v for k, v in hist.items() if k.endswith("resample"))
     ctx.coverage.update({
-        "evaluations": len(cases) + n_lik, "distinct_nontrivial": len(nontrivial & distinct),
+        "evaluations": len(cases) + n_lik + n_pipe, "shipped_pipeline_histories": n_pipe, "distinct_nontrivial": len(nontrivial & distinct),
         "gaussian_likelihood_cases": n_lik, "gaussian_likelihood_fail_subsets_exhaustive": True,
         "rule": "scripted histories of the real SIS filter thread (several skip commands per step incl. sequences netting to nothing, reset -> re-initialisation epochs with a time-varying initialiser, time-varying prediction shift, un-normalised initial weights with failing acquisition): 1..%d steps, N in 1..50, layouts lin 0..3 / circ 0..2, per step a skip command "
                 "(prediction/correction/all on/off), acquisition success/failure, valid/invalid likelihood, likelihood vectors (ones, random, peaked, exact zeros, "
                 "all zero, 1e-300, one-hot, two-hot, 1e300); forced boundary histories (N=3 one-hot: neff == N/3 exactly; resampling with circular components); "
                 "non-trivial = N > 1 and more than one step; distinct = distinct input lines" % (30 if ctx.quick() else 60),
-        "samples": ([hlines[0][:400], hlines[len(hlines) // 2][:400]] if hlines else [str(glik_replay)[:400]]),
+        "samples": ([hlines[0][:400], hlines[len(hlines) // 2][:400]] if hlines else [str(glik_replay or pipe_replay)[:400]]),
         "steps_executed": steps_total, "step_class_histogram": hist, "history_mode_histogram": modes,
         "branch_and_numeric_counters": stats, "steps_with_resampling": resampled_circ,
         "traces_validated_against_impl": len(cases),
         "model_vs_impl_disagreements": len(corr_bad), "property_failures_on_impl": len(prop_bad),
-        "sanitizer_crashes": len(logs) + lik_crashes,
+        "sanitizer_crashes": len(logs) + lik_crashes + pipe_crashes,
     })
     ctx.assumptions += [
         "likelihoods non-negative (hypothesis EvOK.likNonneg): checked on the shipped GaussianLikelihood (gaussian_likelihood_contract; density non-negative is C15's)",
